@@ -153,12 +153,13 @@ reader(FILE *in)
         vh_fill(&nr, 0xEE);
         vh_fill(&cr, 0xEE);
         vh_fill(&er, 0xEE);
-        gh.name = (char *) vh_place(&nr, nb, VH_END, 0);
-        gh.name_buf_len = nb;
-        gh.comment = (char *) vh_place(&cr, cb, VH_END, 0);
-        gh.comment_buf_len = cb;
-        gh.extra = vh_place(&er, eb, VH_END, 0);
-        gh.extra_buf_len = eb;
+        /* a size of -1 means "no buffer" (NULL, length 0), which is how isal_inflate itself calls the reader */
+        gh.name = nb < 0 ? NULL : (char *) vh_place(&nr, nb, VH_END, 0);
+        gh.name_buf_len = nb < 0 ? 0 : nb;
+        gh.comment = cb < 0 ? NULL : (char *) vh_place(&cr, cb, VH_END, 0);
+        gh.comment_buf_len = cb < 0 ? 0 : cb;
+        gh.extra = eb < 0 ? NULL : vh_place(&er, eb, VH_END, 0);
+        gh.extra_buf_len = eb < 0 ? 0 : eb;
         fprintf(out, "{\"t\":\"read\",\"id\":%d,\"kind\":%d,\"steps\":[", id, kind);
         for (calls = 0; calls < 100000; calls++) {
                 uint32_t ai0;
@@ -212,12 +213,13 @@ reader(FILE *in)
         }
         fprintf(out, "],\"ret\":%d,\"fault\":%d,\"pos\":%zu,\"fed\":%zu", ret, faulted, fed - st->avail_in, fed);
         if (kind == 0) {
-                size_t nl = strnlen(gh.name, gh.name_buf_len), cl = strnlen(gh.comment, gh.comment_buf_len);
+                size_t nl = gh.name ? strnlen(gh.name, gh.name_buf_len) : 0, cl = gh.comment ? strnlen(gh.comment, gh.comment_buf_len) : 0;
                 fprintf(out, ",\"text\":%u,\"time_lo\":%u,\"time_hi\":%u,\"xflags\":%u,\"os\":%u,\"extra_len\":%u,\"name_terminated\":%d,\"comment_terminated\":%d", gh.text,
                         gh.time & 0xffff, gh.time >> 16, gh.xflags, gh.os, gh.extra_len, nl < gh.name_buf_len, cl < gh.comment_buf_len);
-                put("name", (unsigned char *) gh.name, nl);
-                put("comment", (unsigned char *) gh.comment, cl);
-                put("extra", gh.extra, gh.extra_len <= gh.extra_buf_len ? gh.extra_len : gh.extra_buf_len);
+                fprintf(out, ",\"nobuf\":%d", (gh.name == NULL) + 2 * (gh.comment == NULL) + 4 * (gh.extra == NULL));
+                put("name", (unsigned char *) (gh.name ? gh.name : ""), nl);
+                put("comment", (unsigned char *) (gh.comment ? gh.comment : ""), cl);
+                put("extra", gh.extra ? gh.extra : (unsigned char *) "", gh.extra == NULL ? 0 : gh.extra_len <= gh.extra_buf_len ? gh.extra_len : gh.extra_buf_len);
         } else {
                 fprintf(out, ",\"info\":%u,\"level\":%u,\"dict_flag\":%u,\"id_lo\":%u,\"id_hi\":%u", zh.info, zh.level, zh.dict_flag, zh.dict_id & 0xffff, zh.dict_id >> 16);
         }
